@@ -181,6 +181,21 @@ func c11Run(c *core.Ctx) {
 				rec(append(append(buf[:0], bom.Bytes...), sigma11[i]), len(bom.Bytes)+nb, "B:behind-bom")
 			}
 		}
+		// UTF-16/32 text behind its BOM is full of NUL bytes: a,NUL,high byte combinations
+		unit++
+		if c.Mine(unit) && !c.Expired() {
+			var recZ func(s []byte, max int)
+			recZ = func(s []byte, max int) {
+				try(s, 0, "B:behind-bom-with-NUL")
+				if len(s) == max {
+					return
+				}
+				for _, x := range []byte{0x00, 'a', 0xD8, 0xFF, 0x0A} {
+					recZ(append(s, x), max)
+				}
+			}
+			recZ(append(buf[:0], bom.Bytes...), len(bom.Bytes)+6)
+		}
 		unit++
 		if c.Mine(unit) {
 			try(bom.Bytes, 0, "B:behind-bom")
